@@ -114,7 +114,7 @@ static void make_cues (SF_CUES *q, int variant, const Container *c)
 	{	SF_CUE_POINT *p = &q->cue_points [i] ;
 		p->indx = i + 1 ; p->sample_offset = (uint32_t) (i * 3 + variant) ;
 		p->fcc_chunk = 0x61746164 ;	/* 'data' */
-		if ((c->major & SF_FORMAT_TYPEMASK) != SF_FORMAT_AIFF) { p->position = (uint32_t) (i + 7) ; p->chunk_start = 0 ; p->block_start = 0 ; }
+		if ((c->major & SF_FORMAT_TYPEMASK) != SF_FORMAT_AIFF) { p->position = (uint32_t) (i + 7) ; p->chunk_start = 8 + 4 * i ; p->block_start = 512 + i ; }	/* every field its own value: a reader that assigns one field from another shows */
 		if (c->cuenames) snprintf (p->name, sizeof (p->name), "Cue %03d%s", i, (i & 1) ? "x" : "") ;
 		}
 }
